@@ -736,7 +736,10 @@ func (e *Engine) globalPtr(st *State, g *ssa.Global) PtrV {
 			e.nextObj = ids[1] - 1
 			ev := e.newError(st, g.String(), nil)
 			e.nextObj = saved
+			was := e.inAtomic
+			e.inAtomic = true // materialising the initial value is not a write of the program
 			e.store(st, p, ev)
+			e.inAtomic = was
 		}
 	}
 	return p
@@ -2232,6 +2235,21 @@ func (e *Engine) intrinsic(st *State, f *Frame, x *ssa.Call, fn *ssa.Function, n
 		return Ite(args[0].(*Term), c64(1), c64(0)), true
 	case "verifAssertDecodesLikeRef":
 		return nil, true
+	case "verifNoAliasString", "verifNoAliasBytes":
+		// true iff the value is empty or does not share the buffer's backing object
+		buf := args[1].(SliceV)
+		var obj int
+		var ln *Term
+		switch v := args[0].(type) {
+		case StringV:
+			obj, ln = v.Obj, v.Len
+		case SliceV:
+			obj, ln = v.Obj, v.Len
+		}
+		if buf.Obj == 0 || obj != buf.Obj {
+			return True(), true
+		}
+		return Eq(ln, c64(0)), true
 	case "verifAssertNoAlias":
 		// every string / []byte reachable from the message that shares the input's backing object must be
 		// empty (a zero-length alias is unobservable); the witness then has a non-empty aliasing value
